@@ -54,6 +54,12 @@ EXTRA_TEXTS = ['foo == a["b"]', 'foo != a[ `b` ]', 'a["b"] in foo', 'foo contain
                'any xs as x { x is empty}', 'any xs as x { x == `1`}', '(a == 1)', '(a == 1 )', '( a == 1)', 'a == 1,', 'a == 1]', 'a == 1{', 'a == 1"', 'a == 1(', 'a == 1\t', 'a == 1\n',
                'a == 1\r', 'a == 1.5}', 'a == -1)', '(a == b)', '(a == "b")', 'any xs as x { (x == 1) }', 'any xs as x { (x == 1)}', 'any xs as x {(x == 1)}', 'all xs as x{x == 1 }',
                'all xs as x { x == 1 }}', 'all xs as x { x == 1 } ', 'all xs as _ ,v { v == 1 }', 'all xs as k,v{ v == 1 and k == 0 }', '1 in a}', 'a == 1 }',
+               # binding lists
+               'any xs as _, _ { a == 1 }', 'any xs as _ { a == 1 }', 'any xs as _,v { v == 1 }', 'any xs as v,_ { v == 1 }', 'any xs as v, v { v == 1 }', 'any xs as { a == 1 }',
+               'any xs as 1 { a == 1 }', 'any xs as a.b { a == 1 }', 'any xs as "v" { v == 1 }', 'any xs as v w { v == 1 }', 'any xs as v, { v == 1 }', 'any xs as ,v { v == 1 }',
+               'any xs as v, w, z { v == 1 }', 'any xs as and { and == 1 }', 'any xs as not { not == 1 }', 'any xs as any { any == 1 }', 'any xs as _x { _x == 1 }',
+               'any xs as x_ { x_ == 1 }', 'any xs as __ { __ == 1 }', 'any xs as _ , _ { a == 1 }', 'all xs as _,_{a == 1}', 'any xs as v ,w { v == w }', 'anyxs as v { v == 1 }',
+               'any xs asv { v == 1 }', 'any xs as v{v == 1}', 'any "/xs" as v { v == 1 }', 'any xs.0["k"] as k, v { k == v }', 'Any xs as v { v == 1 }', 'ALL xs as v { v == 1 }',
                # escape sequences inside double-quoted literals (strconv.Unquote)
                'foo == "\\u00e9"', 'foo == "\\u00E9x"', 'foo == "\\U0001F600"', 'foo == "\\ud800"', 'foo == "\\U00110000"', 'foo == "\\u12"', 'foo == "\\101"',
                'foo == "\\377"', 'foo == "\\400"', 'foo == "\\18"', 'foo == "\\x41"', 'foo == "\\xc3\\xa9"', 'foo == "\\303\\251"', 'foo == "\\xff\\x41"', 'foo == "\\0"',
